@@ -132,6 +132,7 @@ pub fn inherent_forms(b: &crate::apply::Built, d: Dialect) -> (String, String, V
                 Built::Ins(s) => go!(s, $qb),
                 Built::Upd(s) => go!(s, $qb),
                 Built::Del(s) => go!(s, $qb),
+                Built::With(s) => go!(s, $qb),
             }
         };
     }
@@ -155,5 +156,6 @@ pub fn entry_points_of(b: &crate::apply::Built, d: Dialect) -> Renderings {
         Built::Ins(s) => all_entry_points(s, d),
         Built::Upd(s) => all_entry_points(s, d),
         Built::Del(s) => all_entry_points(s, d),
+        Built::With(s) => all_entry_points(s, d),
     }
 }
